@@ -141,6 +141,14 @@ def changing_events():
         for name, text in DOCS:
             evs.append(Ev(did_change(URI[k], text), "textDocument/didChange", target=k, diag_for=(k, text)))
         evs.append(Ev(did_close(URI[k]), "textDocument/didClose", target=k))
+    # document notifications sent with an id and well-formed params: JSON-RPC makes them requests, so the notification is
+    # carried out (diagnostics may be published) and the id still needs exactly one response
+    name, text = DOCS[1]
+    for mk in (lambda: did_open(URI["A"], text), lambda: did_change(URI["A"], text), lambda: did_close(URI["A"])):
+        m = mk()
+        m["id"] = 0
+        evs.append(Ev(m, "<notification method sent with an id>", pclass="valid", kind="request", target="A",
+                      diag_for=None if m["method"].endswith("didClose") else ("A", text)))
     sd = note("shutdown")
     sd["id"] = "sd"
     evs.append(Ev(sd, "shutdown"))
@@ -260,6 +268,9 @@ def request_events(state_docs, ondisk_uri, ondisk_text, full=False):
     m = note("initialized")
     m["id"] = 0
     evs.append(Ev(m, "<notification method sent with an id>", pclass="params:missing", kind="request"))
+    m = note("initialized", {})
+    m["id"] = 0
+    evs.append(Ev(m, "<notification method sent with an id>", pclass="valid", kind="request"))
     # 3. malformed document notifications (must not change the store, must not be answered)
     for meth, base in (("didOpen", did_open(uri["A"], "x")["params"]), ("didChange", did_change(uri["A"], "x")["params"]), ("didClose", did_close(uri["A"])["params"])):
         import copy
@@ -281,6 +292,7 @@ def request_events(state_docs, ondisk_uri, ondisk_text, full=False):
         m = note("textDocument/" + meth, ...)
         m["id"] = 0
         evs.append(Ev(m, "<notification method sent with an id>", pclass="params:missing", kind="request"))
+
     # 4. protocol-level messages
     m = note("workspace/noSuchMethod", {})
     m["id"] = 0
